@@ -152,8 +152,19 @@ def parse_varspec(s):
     return n, t == "i", parse_olist(lb), parse_olist(ub), (None if v == "_" else parse_rlist(v))
 
 
-def np_value(vals, is_int):
-    return np.array([int(v) for v in vals], dtype=np.int64) if is_int else np.array([float(v) for v in vals])
+def np_value(vals, is_int, as_int=False):
+    """The array handed to the design space. `as_int`: whole-number values of a FLOAT variable are handed as an
+    int64 array (what `array([5, 3, 1])` gives a caller); the values are the same, so every view must be too."""
+    if is_int or (as_int and all(Fraction(v).denominator == 1 for v in vals)):
+        return np.array([int(Fraction(v)) for v in vals], dtype=np.int64)
+    return np.array([float(v) for v in vals])
+
+
+def _int_dtype_choice(line: str) -> bool:
+    """Deterministic per protocol line (so that replays reproduce it): one line in three."""
+    import zlib
+
+    return zlib.crc32(line.encode()) % 3 == 0
 
 
 def impl_add(ds, spec, scalar_style=False):
@@ -206,17 +217,21 @@ def impl_step(ds, line: str, holder: dict) -> str:
             arr = to_np_bound(b, op == "setlb")
             (ds.set_lower_bound if op == "setlb" else ds.set_upper_bound)(toks[1], arr)
         elif op == "setarr":
-            ds.set_current_value(np.array([float(Fraction(t)) for t in toks[1].split(",")]))
+            fr = [Fraction(t) for t in toks[1].split(",")]
+            if _int_dtype_choice(line) and all(f.denominator == 1 for f in fr):
+                ds.set_current_value(np.array([int(f) for f in fr], dtype=np.int64))
+            else:
+                ds.set_current_value(np.array([float(f) for f in fr]))
         elif op == "setdict":
             d = {}
             for kv in toks[1:]:
                 k, v = kv.split("=")
                 is_int = k in ds and str(ds.variable_types[k]) == "integer"
-                d[k] = np_value(parse_rlist(v), is_int)
+                d[k] = np_value(parse_rlist(v), is_int, as_int=_int_dtype_choice(line))
             ds.set_current_value(d)
         elif op == "setvar":
             is_int = str(ds.variable_types[toks[1]]) == "integer"
-            ds.set_current_variable(toks[1], np_value(parse_rlist(toks[2]), is_int))
+            ds.set_current_variable(toks[1], np_value(parse_rlist(toks[2]), is_int, as_int=_int_dtype_choice(line)))
         elif op == "initmissing":
             ds.initialize_missing_current_values()
         elif op == "intnorm":
